@@ -31,6 +31,8 @@ type connScn struct {
 	ConnectYields int       `json:"connect_yields,omitempty"`
 	ConnectClose  bool      `json:"connect_close,omitempty"`
 	ConnectRead   bool      `json:"connect_read,omitempty"`
+	// ConnectSetsRequest: the server has no OnRequest option; OnConnect installs the handler with SetOnRequest
+	ConnectSetsRequest bool `json:"connect_sets_request,omitempty"`
 	Request       bool      `json:"request,omitempty"`
 	Handler       string    `json:"handler,omitempty"` // all, k, lazy, close, panic, panic-late
 	HandlerK      int       `json:"handler_k,omitempty"`
@@ -71,6 +73,9 @@ func genConnScn(t *rapid.T, prop string, excl map[string]bool) connScn {
 		}
 		s.Request = rapid.IntRange(0, 5).Draw(t, "request") > 0
 		s.Disconnect = rapid.IntRange(0, 2).Draw(t, "disconnect") > 0
+		if s.Connect && s.Request && !excl["F24"] {
+			s.ConnectSetsRequest = rapid.IntRange(0, 5).Draw(t, "connectSetsRequest") == 0
+		}
 	}
 	if s.Request {
 		hs := []string{"all", "all", "all", "k", "k", "lazy", "close"}
@@ -212,7 +217,7 @@ func runConn(t *rapid.T, s connScn, replay []vs.Step) *connOutcome {
 	}
 	opts := &options{}
 	if !s.Client {
-		if s.Request {
+		if s.Request && !s.ConnectSetsRequest {
 			opts.onRequest = onRequest
 		}
 		if s.Prepare {
@@ -229,6 +234,9 @@ func runConn(t *rapid.T, s connScn, replay []vs.Step) *connOutcome {
 		if s.Connect {
 			opts.onConnect = func(ctx context.Context, conn Connection) context.Context {
 				w.ev("connect+")
+				if s.ConnectSetsRequest {
+					conn.SetOnRequest(onRequest)
+				}
 				for i := 0; i < s.ConnectYields; i++ {
 					vs.Yield(-15)
 				}
